@@ -472,8 +472,12 @@ func (c c18) freeRun(w *core.WCtx, name string) core.Result {
 	}
 	for iter := 0; iter < 40; iter++ {
 		dir := w.Dir()
-		db, err := simpledb.NewSimpleDB(dir, simpledb.DisableCompactions(), simpledb.MemstoreSizeBytes(d.mem),
-			simpledb.CompactionFileThreshold(d.thresh), simpledb.WriteBufferSizeBytes(4096), simpledb.ReadBufferSizeBytes(4096))
+		fopts := []simpledb.ExtraOption{simpledb.DisableCompactions(), simpledb.MemstoreSizeBytes(d.mem),
+			simpledb.CompactionFileThreshold(d.thresh), simpledb.WriteBufferSizeBytes(4096), simpledb.ReadBufferSizeBytes(4096)}
+		if d.maxSize > 0 {
+			fopts = append(fopts, simpledb.CompactionMaxSizeBytes(d.maxSize))
+		}
+		db, err := simpledb.NewSimpleDB(dir, fopts...)
 		if err == nil {
 			err = db.Open()
 		}
